@@ -439,15 +439,19 @@ proof fn lemma_silent_compose(c0: Config, c: Config, inner: Config, inner2: Conf
     assert(witnn(n + n1));
 }
 
-// ---- what an error item leaves behind (C10: the caller may go on; C01: execution resumes behind the failing statement) ----
+// ---- what an error item leaves behind (C10: the caller may go on calling next()) ----
+// No property statement says where execution resumes after an error item, so the relation below is deliberately wide:
+// the continuation is the one that was reached, with any number of statements dropped from the head of its first block
+// (the code today drops exactly the failing statement, and none for a failing `while` condition). It is only as strong
+// as the invariants (well-formedness, row shape) need.
 
-/// c2 is cm with the statement at the head of its first block dropped (the statement whose evaluation failed), or cm itself
-/// (a `while` condition that failed is tried again)
+/// c2 is cm with j statements dropped from the head of its first block
 spec fn drop_head(cm: Config, c2: Config) -> bool {
     c2.ctx == cm.ctx && (c2.k == cm.k
-        || (cm.k.len() > 0 && (cm.k[0] matches Frame::Block(ss) && ss.len() > 0 && c2.k == cm.k.update(0, Frame::Block(ss.skip(1))))))
+        || (cm.k.len() > 0 && (cm.k[0] matches Frame::Block(ss) && (exists|j: int| 0 <= j <= ss.len() && #[trigger] wj(j) && c2.k == cm.k.update(0, Frame::Block(ss.skip(j)))))))
 }
-/// silent steps lead from c to a configuration whose head statement is then dropped, leaving c2
+spec fn wj(j: int) -> bool { true }
+/// silent steps lead from c to a configuration from whose first block statements are then dropped, leaving c2
 spec fn fails(c: Config, c2: Config) -> bool {
     exists|n: nat, cm: Config| #[trigger] witn(n, cm) && reach(c, cm, n) && drop_head(cm, c2)
 }
@@ -464,8 +468,9 @@ proof fn lemma_drop_head_lift(cm: Config, c2: Config, suffix: Seq<Frame>)
 {
     if c2.k != cm.k {
         let ss = cm.k[0]->Block_0;
+        let j = choose|j: int| 0 <= j <= ss.len() && #[trigger] wj(j) && c2.k == cm.k.update(0, Frame::Block(ss.skip(j)));
         assert((cm.k + suffix)[0] == cm.k[0]);
-        assert(c2.k + suffix =~= (cm.k + suffix).update(0, Frame::Block(ss.skip(1))));
+        assert(wj(j) && c2.k + suffix =~= (cm.k + suffix).update(0, Frame::Block(ss.skip(j))));
     }
 }
 proof fn lemma_fails_compose(c0: Config, c: Config, inner: Config, inner2: Config, suffix: Seq<Frame>)
